@@ -444,6 +444,12 @@ func lowerHex(v any) string {
 // c07Expect classifies the exchanges and, when well-formed, builds the
 // expected blocks. reason is non-empty when not well-formed.
 func c07Expect(cs *C07Case, ex []*c07Exchange) (blocks []*xBlock, reason string) {
+	unspecified := ""
+	defer func() {
+		if reason == "" && unspecified != "" {
+			reason = unspecified
+		}
+	}()
 	byNum := map[uint64]*xBlock{}
 	for i := uint64(0); i < cs.Limit; i++ {
 		b := &xBlock{num: cs.Start + i, txs: map[uint64]*xTx{}}
@@ -584,6 +590,11 @@ func c07Expect(cs *C07Case, ex []*c07Exchange) (blocks []*xBlock, reason string)
 				idx, _ := hxU(lm["transactionIndex"])
 				x := b.tx(idx)
 				li, _ := hxU(lm["logIndex"])
+				if prev, dup := x.logs[li]; dup && fmt.Sprint(prev) != fmt.Sprint(mkLog(lm)) {
+					// two different logs claim the same (block, transaction, log
+					// index): the property does not say which one a caller gets
+					unspecified = fmt.Sprintf("unspecified: two different logs with index %d in block %d tx %d", li, num, idx)
+				}
 				x.logs[li] = mkLog(lm)
 				if x.hash == "" {
 					x.hash = lowerHex(lm["transactionHash"])
@@ -894,6 +905,9 @@ func RunC07(t *testing.T, plan *Plan, st *core.Stream, extra Extra, keepLog bool
 	res.StateHash = res.LogHash
 	switch {
 	case len(res.Violations) > 0:
+	case strings.HasPrefix(reason, "unspecified:"):
+		res.Stats["unspecified_response_not_judged"] = 1
+		retryDone = false
 	case reason != "" && err == nil:
 		res.Violations = append(res.Violations, Violation{Class: "accepted-malformed/" + reasonClass(reason), Msg: fmt.Sprintf("Get succeeded although the responses were not well-formed (%s); case %s", reason, res.PlanDigest)})
 	case reason == "" && err != nil && len(cs.Corr) == 0:
